@@ -202,8 +202,9 @@ def _c02_light(c, nl, family, n):
 def run(tier, seed):
     tasks = PC.make_tasks(tier, seed, ORACLES, layouts=["comments"], layout_depth=1, include_noreq=True)
     results = pool.run_tasks("checks.parser_common:task", tasks)
-    results += pool.run_tasks("checks.parser_common:valid_task", PC.valid_tasks(tier, seed, ORACLES))
+    results += pool.run_tasks("checks.parser_common:valid_task", PC.valid_tasks(tier, seed, ORACLES, post="reuse"))
     cov, viols, harness = PC.assemble(results)
+    viols = [v for v in viols if v["property"] == "C02"]
     # (b) byte-edit neighbourhoods
     bt = [(i, False, True) for i in range(len(CORPUS))]
     if tier == "thorough":
